@@ -269,6 +269,20 @@ def run(tier, seed, replay):
             lines.append("C01.transpose_dia " + json.dumps({"a": dia_json(DL), "conj": cj}))
             tr_ = _data.adjoint_dia(DL) if cj else _data.transpose_dia(DL)
             expect.append(("abs_offsets", tr_.to_array(), sorted(int(o) for o in tr_.as_scipy().offsets)))
+        # inner_dia / inner_op_dia: states stored by diagonals, the left one given as a ket and as a bra; the operator is
+        # this case's matrix (square, wide or tall) in the library's diagonal form
+        _inner = importlib.import_module("qutip.core.data.inner")
+        OPd = build(a, "dia", rng)
+        lvec, rvec, lvec2 = (pattern(rng, (n_, 1), str(rng.choice(["full", "random"]))) for n_ in (shape[0], shape[1], shape[1]))
+        Rk = _data.to(_data.Dia, _data.Dense(rvec))
+        for lb in (False, True):
+            Lk = _data.to(_data.Dia, _data.Dense(lvec.conj().T.copy() if lb else lvec))
+            L2 = _data.to(_data.Dia, _data.Dense(lvec2.conj().T.copy() if lb else lvec2))
+            for flag in (False, True):
+                lines.append("C01.inner_op_dia " + json.dumps({"left": dia_json(Lk), "op": dia_json(OPd), "right": dia_json(Rk), "scalar_is_ket": flag}))
+                expect.append(("value", complex(_inner.inner_op_dia(Lk, OPd, Rk, flag))))
+                lines.append("C01.inner_dia " + json.dumps({"left": dia_json(L2), "right": dia_json(Rk), "scalar_is_ket": flag}))
+                expect.append(("value", complex(_inner.inner_dia(L2, Rk, flag))))
     model = core.run_driver(lines)
     ndis, first = 0, None
     for line, ex, m in zip(lines, expect, model):
@@ -294,6 +308,9 @@ def run(tier, seed, replay):
         elif ex[0] == "dense_of_csr":
             if not np.array_equal(dec(m["assign"]), ex[1]):
                 bad = {"model": m["assign"], "impl": str(ex[1].tolist())}
+        elif ex[0] == "value":
+            if complex(m["value"][0], m["value"][1]) != ex[1]:
+                bad = {"model": m["value"], "impl": str(ex[1])}
         elif ex[0] == "abs":
             if not np.array_equal(dec(m["abs"]), ex[1]):
                 bad = {"model": m["abs"], "impl": str(ex[1].tolist())}
